@@ -52,16 +52,66 @@ def _in_repo(tb):
     return os.path.abspath(fn).startswith(os.path.abspath(REPO) + os.sep)
 
 
+def _constructed(obj):
+    """did the object go through its class's constructor?  (harness objects are made with __new__ and given only the attributes a contract needs.)
+    True unless some attribute that an __init__ in the MRO assigns unconditionally (top-level `self.X = ...`) is absent."""
+    import ast, textwrap
+    try: have = set(vars(obj))
+    except TypeError: return True
+    for k in type(obj).__mro__:
+        init = k.__dict__.get('__init__')
+        if init is None or not hasattr(init, '__code__'): continue
+        try: fn = ast.parse(textwrap.dedent(inspect.getsource(init))).body[0]
+        except Exception: continue
+        for st in fn.body:
+            tg = st.targets if isinstance(st, ast.Assign) else [st.target] if isinstance(st, (ast.AnnAssign, ast.AugAssign)) else []
+            for t in tg:
+                if isinstance(t, ast.Attribute) and isinstance(t.value, ast.Name) and t.value.id == 'self':
+                    x = t.attr
+                    if x in have or ('_' + x) in have: continue
+                    if isinstance(getattr(type(obj), x, None), property): continue       # stored under another name: cannot tell
+                    return False
+    return True
+
+
+def _harness_fault(e):
+    """reason (str) when the exception shows that the CONTRACT / harness is out of date with the code rather than that the code misbehaves:
+    (a) a loop-cut contract addresses a local name the function no longer has; (b) repository code reads an attribute that the class's own
+    constructor assigns but the object lacks - the harness built the object with __new__ and did not supply it.  Such outcomes are undecided."""
+    from .loops import StaleAnchor
+    if isinstance(e, StaleAnchor): return f"stale anchor: {e}"
+    from .loops import NotExtractable
+    if isinstance(e, NotExtractable): return f"stale anchor: the loop the contract cuts is no longer where it was ({e})"
+    if isinstance(e, AttributeError) and getattr(e, 'obj', None) is not None and getattr(e, 'name', None):
+        obj, name = e.obj, e.name
+        try:
+            if name in vars(obj): return None
+        except TypeError: return None
+        if _constructed(obj): return None               # went through its constructor: a missing attribute is the code's problem
+        pub = name[1:] if name.startswith('_') else None
+        for k in type(obj).__mro__:
+            if k is object: continue
+            try: src = inspect.getsource(k)
+            except Exception: continue
+            if re.search(rf"self\.{re.escape(name)}\s*=[^=]", src) or (pub and isinstance(getattr(type(obj), pub, None), property) and re.search(rf"self\.{re.escape(pub)}\s*=[^=]", src)):
+                return f"harness object of {type(obj).__name__} was built without its constructor and lacks '{name}', which the class assigns during its normal life cycle (the code under contract now reads it)"
+    return None
+
+
 def run_job(args):
     """worker: returns a dict with obligations and statistics for one job"""
     prop, jobid, tier, seed = args
     from . import core, shims
     from .ctx import Ctx, Reject, Obl
     t0 = time.time()
-    out = dict(job=jobid, obligations=[], paths=0, unsupported=[], numeric=dict(runs=0, checks=0, fails=[]),
+    out = dict(job=jobid, obligations=[], paths=0, unsupported=[], numeric=dict(runs=0, checks=0, fails=[], harness=[]),
                shims=[], error=None, level=None, functions={}, assumptions=[], wall=0.0)
     try:
         mod = _load_contracts(prop)
+        from . import loops as _loops
+        _loops.SEEN.clear(); _loops.ANCHORS.clear()
+        try: _loops.ANCHORS.update(json.load(open(os.path.join(VERIF, 'baseline', f'{prop}.json'))).get('anchors', {}))
+        except Exception: pass
         job = {j.id: j for j in mod.jobs(tier)}[jobid]
         out['level'] = job.level
         out['functions'] = {q: _src_hash(q) for q in job.functions}
@@ -85,7 +135,7 @@ def run_job(args):
                     raise
                 except Exception as e:
                     tb = e.__traceback__
-                    kind = 'exc' if _in_repo(tb) else 'unsupported'
+                    kind = 'exc' if (_in_repo(tb) and not _harness_fault(e)) else 'unsupported'
                     return (kind, f"{type(e).__name__}: {e}", ''.join(traceback.format_tb(tb)[-3:]), list(c.obls), dict(c.symnames))
                 return ('ret', None, None, list(c.obls), dict(c.symnames))
             try:
@@ -142,6 +192,10 @@ def run_job(args):
                     except _Timeout: c.unpatch(); raise
                     except Exception as e:
                         c.unpatch()
+                        hf = _harness_fault(e)
+                        if hf:
+                            if hf not in out['numeric']['harness']: out['numeric']['harness'].append(hf)
+                            return None, hf, dict(c.symnames)
                         return c, f"raised {type(e).__name__}: {e}", dict(c.symnames)
                     c.unpatch()
                     return c, None, dict(c.symnames)
@@ -180,6 +234,10 @@ def run_job(args):
         try: signal.alarm(0)
         except Exception: pass
     out['wall'] = round(time.time() - t0, 3)
+    try:
+        from . import loops as _loops
+        out['anchors'] = dict(_loops.SEEN)
+    except Exception: out['anchors'] = {}
     return out
 
 
@@ -345,6 +403,8 @@ def report(prop, tier, seed, joblist, results, wall, a, mod):
                     all_ids[oid] = 'undecided'
                     undecided.append((job, o['name'], 'refuted only in the abstraction (uninterpreted function values or engine-level exception); no native failing input'))
         num_runs += r['numeric']['runs']; num_checks += r['numeric']['checks']
+        for hf in r['numeric'].get('harness', []):
+            undecided.append((job, 'harness-out-of-date', hf))
         for f in r['numeric']['fails']:
             k = match_known(known, prop, job, f['name'])
             o = dict(name=f['name'], note=f['detail'], inputs=f['inputs'], native=dict(reproduced=True, detail=[f['detail']], inputs=f['inputs']),
@@ -386,6 +446,9 @@ def report(prop, tier, seed, joblist, results, wall, a, mod):
     if a.update_baseline and not a.jobs:
         os.makedirs(os.path.dirname(bpath), exist_ok=True)
         base[tier] = sorted(proved_ids)
+        anchors = dict(base.get('anchors', {}))
+        for r in results: anchors.update(r.get('anchors', {}))
+        base['anchors'] = anchors
         json.dump(base, open(bpath, 'w'), indent=0)
     elif tier in base and not a.jobs:
         known_ids = {f for f in base[tier]}
